@@ -769,9 +769,11 @@ impl<Front: SocketHandler + std::fmt::Debug, L: ListenerHandler + L7ListenerHand
                 };
                 let mut gids: Vec<usize> = c.streams.values().copied().collect();
                 gids.sort_unstable();
+                let state = format!("{:?}", c.state);
                 format!(
-                    "tok={} proto=h2 ev={} int={} er={} era={} ew={} cwin={} wu={} zero={} tls={} gids={:?}",
+                    "tok={} proto=h2 st={} ev={} int={} er={} era={} ew={} cwin={} wu={} zero={} tls={} gids={:?}",
                     token.0,
+                    state.split(['(', ' ']).next().unwrap_or(""),
                     c.readiness.event.0,
                     c.readiness.interest.0,
                     er_gid,
